@@ -120,7 +120,14 @@ def gen_cases(rng, tier):
             t, fn = r.choice(cand)
             first_t = next(tt for m_ in flat for tt, ff in m_[1][1] if ff == fn)
             probe = [fn, V.gen_value(r, first_t, none_chance=10)]
-        cases.append({"kind": "grouped", "name": r.choice(TN), "members": members, "assign": probe})
+        case = {"kind": "grouped", "name": r.choice(TN), "members": members, "assign": probe}
+        if cand and r.chance(60):
+            # the group is a VIEW: after its fields were read once, the winning member is updated directly (or through an
+            # inner group) - the group has to expose the member's new value
+            t, fn = r.choice(cand)
+            first_t = next(tt for m_ in flat for tt, ff in m_[1][1] if ff == fn)
+            case["poke"] = [fn, V.gen_value(r, first_t, none_chance=5)]
+        cases.append(case)
     r = rng.fork("replace")
     for _ in range(n // 2):
         rec = _gen_rec(r)
@@ -279,6 +286,17 @@ def run_real(case):
                 setattr(g, fn, V.build(spec))
                 res["assign"] = {"owner": owner, "want": want, "after": [obs_rec(x) for x in g.records],
                                  "read_back": V.observe(getattr(g, fn))}
+            if case.get("poke"):
+                fn, spec = case["poke"]
+                owner = next(i for i, x in enumerate(g.records) if fn in x.__slots__)
+                getattr(g, fn)                                   # read through the group first
+                setattr(g.records[owner], fn, V.build(spec))     # then update the member itself
+                try:
+                    dv = V.observe(g._asdict()[fn])
+                except Exception as e:          # noqa: BLE001
+                    dv = ["error", type(e).__name__]
+                res["poke"] = {"member": V.observe(getattr(g.records[owner], fn)), "group": V.observe(getattr(g, fn)),
+                               "asdict": dv}
             return res
         if k == "replace":
             rec = V.build(case["record"])
@@ -486,6 +504,14 @@ def oracle(case, obs):
                         return f"assignment to grouped.{fn} changed {k1} of member {i}"
             if a["read_back"] != a["want"]:
                 return f"grouped.{fn} does not read back the assigned value"
+        pk = obs.get("poke")
+        if pk:
+            fn = case["poke"][0]
+            if pk["group"] != pk["member"]:
+                return (f"after the first member holding {fn} was updated, grouped.{fn} is {json.dumps(pk['group'])[:70]} "
+                        f"while the member holds {json.dumps(pk['member'])[:70]}")
+            if pk["asdict"] != pk["member"]:
+                return f"after the first member holding {fn} was updated, grouped._asdict()[{fn}] does not follow"
         return None
     if k == "replace":
         orig = obs["inputs"][0]
